@@ -131,7 +131,8 @@ TRUSTED = {
     r"pub fn get\(&mut self, width: usize\)": "E9': MaskCache::get outlined (HashMap entry API): returns a BigUint denoting 2^width - 1, i.e. what ValueBigUint::gen_mask(width) "
                                               "is proved to return (the HashMap memoisation is trusted)",
     r"pub struct MaskCache": "E9': MaskCache is opaque (its HashMap field is not modelled)",
-    r"pub fn trunc\(&mut self": "Value::trunc is NOT under contract: it is declared with precondition `false`, so a reachable call is a failed proof (resize only reaches it for operands wider than the context, excluded by the precondition)",
+    r"fn to_u64\(&self\)": "S0: ToPrimitive::to_u64: u64 -> Some(v); BigUint -> Some(v) iff v <= u64::MAX",
+    r"fn default\(\) -> \(r: ValueBigUint\)": "E3': #[derive(Default)] on ValueBigUint replaced by a trusted spec: payload 0, mask 0, width 0, unsigned (BigUint::default() is zero)",
     r"fn vp_bool_to_u64": "O12: u64::from(bool): true -> 1, false -> 0",
     r"\[usize::min\]|\[<usize as Ord>::min\]": "O5: usize::min = the smaller one",
 }
@@ -151,6 +152,10 @@ impl Clone for ValueBigUint {
 impl Clone for Value {
     #[verifier::external_body]
     fn clone(&self) -> (r: Value) ensures r == *self { unimplemented!() }
+}
+impl Default for ValueBigUint {
+    #[verifier::external_body]
+    fn default() -> (r: ValueBigUint) ensures bv(*r.payload) == 0, bv(*r.mask_xz) == 0, r.width == 0, !r.signed { unimplemented!() }
 }
 
 /// representation invariants (width 0 = the unsized all-bit literal '0 '1 'x 'z, always in the <=64-bit form)
@@ -217,6 +222,12 @@ HELPERS = [
     ("ValueU64", "new_bit_0x", dict(ret="r", spec="    ensures r == bit1(if is_zero { B4::Zero } else if is_x { B4::X } else { B4::One }),", start="        proof { lemma_pow2_small(); }")),
     ("ValueU64", "new_bit_x1", dict(ret="r", spec="    ensures r == bit1(if is_x { B4::X } else if is_one { B4::One } else { B4::Zero }),", start="        proof { lemma_pow2_small(); }")),
     ("ValueU64", "to_usize", dict(ret="r", spec="    ensures r == (if self.mask_xz != 0 { None } else { Some(self.payload as usize) }),")),
+    ("ValueU64", "trunc", dict(spec="    requires %s,\n    ensures final(self).payload as nat == (old(self).payload as nat) %% pow2(width as nat), final(self).mask_xz as nat == (old(self).mask_xz as nat) %% pow2(width as nat),\n"
+                                    "        final(self).width == width, final(self).signed == old(self).signed," % W32,
+                               start="        proof { let m = if width >= 64 { 64nat } else { width as nat }; lemma_pow2_small(); lemma_low_lt(m); lemma_pow2_le(m, 64);\n"
+                                     "            lemma_agree_bitops(self.payload, low(m) as u64); lemma_agree_bitops(self.mask_xz, low(m) as u64);\n"
+                                     "            lemma_band_low(self.payload as nat, m); lemma_band_low(self.mask_xz as nat, m);\n"
+                                     "            if width >= 64 { lemma_pow2_le(64, width as nat); lemma_small_mod(self.payload as nat, pow2(width as nat)); lemma_small_mod(self.mask_xz as nat, pow2(width as nat)); } }")),
     ("ValueBigUint", "gen_mask", dict(ret="r", spec="    ensures bv(r) == low(width as nat),", gen_mask=True)),
     ("ValueBigUint", "new_biguint", dict(ret="r", spec="    requires %s,\n    ensures bv(*r.payload) == bv(payload), bv(*r.mask_xz) == 0, r.width == width, r.signed == signed," % W32)),
     ("ValueBigUint", "new_x", dict(ret="r", spec="    requires %s,\n    ensures bv(*r.payload) == 0, bv(*r.mask_xz) == low(width as nat), r.width == width, r.signed == signed," % W32)),
@@ -227,6 +238,25 @@ HELPERS = [
                                        boxref=2, desugar=1, start="        proof { lemma_neg(bv(*self.payload), self.width as nat); lemma_msb(bv(*self.payload), self.width as nat); lemma_pow2_pos((self.width - 1) as nat); }")),
     ("ValueBigUint", "new_bigint", dict(ret="r", spec="    requires %s, abs(iv(payload)) < pow2(width as nat),\n    ensures bv(*r.payload) as int == iv(payload) %% (pow2(width as nat) as int), bv(*r.payload) < pow2(width as nat), bv(*r.mask_xz) == 0, r.width == width, r.signed == signed," % W32,
                                         desugar=1, start="        proof { lemma_neg(abs(iv(payload)), width as nat); lemma_band_low(abs(iv(payload)), width as nat); }")),
+    ("ValueBigUint", "gen_mask_range", dict(ret="r", spec="    requires beg < usize::MAX,\n    ensures forall|k: nat| #[trigger] bit(bv(r), k) == (end <= k && k <= beg),", desugar=1,
+                                            start="        broadcast use lemma_band_bit, lemma_bxor_bit, lemma_low_bit;")),
+    ("ValueBigUint", "trunc", dict(spec="    requires %s,\n    ensures bv(*final(self).payload) == bv(*old(self).payload) %% pow2(width as nat), bv(*final(self).mask_xz) == bv(*old(self).mask_xz) %% pow2(width as nat),\n"
+                                        "        bv(*final(self).payload) < pow2(width as nat), bv(*final(self).mask_xz) < pow2(width as nat), final(self).width == width, final(self).signed == old(self).signed," % W32,
+                                   desugar=1, start="        proof { lemma_band_low(bv(*self.payload), width as nat); lemma_band_low(bv(*self.mask_xz), width as nat); }")),
+    ("ValueBigUint", "select", dict(ret="r", spec="    requires beg >= end ==> beg - end < 0xffff_ffff,\n"
+                                                  "    ensures beg < end ==> bv(*r.payload) == 0 && bv(*r.mask_xz) == 0 && r.width == 0 && !r.signed,\n"
+                                                  "        beg >= end ==> r.width == beg - end + 1 && !r.signed && bv(*r.payload) < pow2((beg - end + 1) as nat) && bv(*r.mask_xz) < pow2((beg - end + 1) as nat)\n"
+                                                  "            && (forall|k: nat| #[trigger] bit(bv(*r.payload), k) == (k <= beg - end && bit(bv(*self.payload), (k + end) as nat)))\n"
+                                                  "            && (forall|k: nat| #[trigger] bit(bv(*r.mask_xz), k) == (k <= beg - end && bit(bv(*self.mask_xz), (k + end) as nat))),",
+                                    desugar=1, start="        proof { if beg >= end { lemma_select(bv(*self.payload), end as nat, (beg - end + 1) as nat); lemma_select(bv(*self.mask_xz), end as nat, (beg - end + 1) as nat); } }")),
+    ("ValueBigUint", "assign", dict(spec="    requires wfb(*old(self)), end <= beg < old(self).width,\n"
+                                         "    ensures wfb(*final(self)), final(self).width == old(self).width, final(self).signed == old(self).signed,\n"
+                                         "        forall|k: nat| #[trigger] bit(bv(*final(self).payload), k) == (if end <= k && k <= beg { bit(bv(*value.payload), (k - end) as nat) } else { bit(bv(*old(self).payload), k) }),\n"
+                                         "        forall|k: nat| #[trigger] bit(bv(*final(self).mask_xz), k) == (if end <= k && k <= beg { bit(bv(*value.mask_xz), (k - end) as nat) } else { bit(bv(*old(self).mask_xz), k) }),",
+                                    desugar=1, start="        let ghost vp_p0 = bv(*self.payload); let ghost vp_m0 = bv(*self.mask_xz); let ghost vp_v0 = bv(*value.payload); let ghost vp_w0 = bv(*value.mask_xz);",
+                                    ghost=[("        let inv_mask = ", "        proof { lemma_assign(vp_p0, vp_v0, self.width as nat, beg as nat, end as nat, bv(mask_range)); lemma_assign(vp_m0, vp_w0, self.width as nat, beg as nat, end as nat, bv(mask_range)); }\n", 1)])),
+    ("ValueBigUint", "to_value_u64", dict(ret="r", spec="    ensures r == (if self.width <= 64 && bv(*self.payload) <= u64::MAX && bv(*self.mask_xz) <= u64::MAX {\n"
+                                                        "            Some(ValueU64 { payload: bv(*self.payload) as u64, mask_xz: bv(*self.mask_xz) as u64, width: self.width, signed: self.signed }) } else { None }),")),
     ("ValueBigUint", "to_usize", dict(ret="r", spec="    ensures r == (if bv(*self.mask_xz) != 0 { None } else if bv(*self.payload) <= usize::MAX { Some(bv(*self.payload) as usize) } else { None }),")),
 ]
 
@@ -272,6 +302,42 @@ VALUE_HELPERS = [
     ("to_shift_amount", dict(ret="r", spec="    ensures r == (if vm(*self) != 0 { None } else if vp(*self) <= usize::MAX { Some(vp(*self) as usize) } else { Some(usize::MAX) }),")),
     ("expand", dict(ret="r", spec=EXPAND_SPEC, start=EXPAND_START, desugar=1, cfg=CFG_NOFIELDS,
                     eo=[("if msb | msb_xz {", "if msb || msb_xz {", 3)])),
+]
+
+LIT_P = "(if vp(%s) != 0 { low(%s) } else { 0 })"
+LIT_M = "(if vm(%s) != 0 { low(%s) } else { 0 })"
+VALUE_HELPERS += [
+    ("select", dict(ret="r", kill=("Self::U64(x)", 1),
+                    spec="    requires wf(*self), *self is BigUint, beg >= end ==> beg - end < 0xffff_ffff,\n"
+                         "    ensures wf(r), beg < end ==> vw(r) == 0 && vp(r) == 0 && vm(r) == 0,\n"
+                         "        beg >= end ==> vw(r) == beg - end + 1 && !vs(r) && ((r is U64) == (beg - end + 1 <= 64))\n"
+                         "            && (forall|k: nat| k <= beg - end ==> #[trigger] b4(vp(r), vm(r), k) == b4(vp(*self), vm(*self), (k + end) as nat)),",
+                    start="        proof { lemma_pow2_small(); if beg >= end && beg - end + 1 <= 64 { lemma_pow2_le((beg - end + 1) as nat, 64); } }")),
+    ("trunc", dict(kill=None,
+                   spec="    requires wf(*old(self)), 1 <= width <= 0xffff_ffff,\n"
+                        "    ensures wf(*final(self)),\n"
+                        "        vw(*old(self)) == 0 ==> vw(*final(self)) == width && vp(*final(self)) == %s && vm(*final(self)) == %s && !vs(*final(self)) && ((*final(self) is U64) == (width <= 64)),\n"
+                        "        vw(*old(self)) != 0 && vw(*old(self)) <= width ==> *final(self) == *old(self),\n"
+                        "        vw(*old(self)) > width ==> vw(*final(self)) == width && vp(*final(self)) == vp(*old(self)) %% pow2(width as nat) && vm(*final(self)) == vm(*old(self)) %% pow2(width as nat)\n"
+                        "            && vs(*final(self)) == vs(*old(self)) && ((*final(self) is U64) == (width <= 64)),\n" % (LIT_P % ("*old(self)", "width as nat"), LIT_M % ("*old(self)", "width as nat")),
+                   start="        proof { let w = width as nat; lemma_pow2_small(); lemma_low_lt(w); lemma_pow2_pos(w); if w <= 64 { lemma_pow2_le(w, 64); }\n"
+                         "            lemma_mod_bound(vp(*self) as int, pow2(w) as int); lemma_mod_bound(vm(*self) as int, pow2(w) as int); }")),
+    ("concat", dict(ret="r",
+                    spec="    requires wf(*self), wf(*x), vw(*self) >= 1, vw(*x) >= 1, 64 < vw(*self) + vw(*x) <= 0xffff_ffff,\n"
+                         "    ensures wf(r), r is BigUint, vw(r) == vw(*self) + vw(*x), !vs(r),\n"
+                         "        vp(r) == vp(*self) * pow2(vw(*x)) + vp(*x), vm(r) == vm(*self) * pow2(vw(*x)) + vm(*x),\n"
+                         "        forall|k: nat| k < vw(*self) + vw(*x) ==> #[trigger] b4(vp(r), vm(r), k) == (if k < vw(*x) { b4(vp(*x), vm(*x), k) } else { b4(vp(*self), vm(*self), (k - vw(*x)) as nat) }),",
+                    start="        proof { lemma_concat(vp(*self), vp(*x), vw(*self), vw(*x)); lemma_concat(vm(*self), vm(*x), vw(*self), vw(*x)); }", desugar=1)),
+    ("assign", dict(kill=("Self::U64(x)", 1),
+                    spec="    requires wf(*old(self)), *old(self) is BigUint, wf(value), end <= beg < vw(*old(self)),\n"
+                         "    ensures wf(*final(self)), *final(self) is BigUint, vw(*final(self)) == vw(*old(self)), vs(*final(self)) == vs(*old(self)),\n"
+                         "        forall|k: nat| #[trigger] b4(vp(*final(self)), vm(*final(self)), k) == (if end <= k && k <= beg { b4(vp(value), vm(value), (k - end) as nat) } else { b4(vp(*old(self)), vm(*old(self)), k) }),")),
+    ("set_value", dict(kill=("Self::U64(x)", 1),
+                       spec="    requires wf(*old(self)), *old(self) is BigUint, wf(value),\n"
+                            "    ensures wf(*final(self)), *final(self) is BigUint, vw(*final(self)) == vw(*old(self)), vs(*final(self)) == vs(*old(self)),\n"
+                            "        vp(*final(self)) == (if vw(value) == 0 { %s } else { vp(value) %% pow2(vw(*old(self))) }),\n"
+                            "        vm(*final(self)) == (if vw(value) == 0 { %s } else { vm(value) %% pow2(vw(*old(self))) }),\n" % (LIT_P % ("value", "vw(*old(self))"), LIT_M % ("value", "vw(*old(self))")),
+                       start="        proof { let w = vw(*self); if vw(value) >= 1 && vw(value) <= w { lemma_pow2_le(vw(value), w); lemma_small_mod(vp(value), pow2(w)); lemma_small_mod(vm(value), pow2(w)); } }")),
 ]
 
 # ---- operator arms --------------------------------------------------------------------------------------------------
@@ -521,8 +587,11 @@ def build(ctx, res):
     for impl, fn, c in HELPERS:
         open_impl(impl)
         f = v.item("fn", fn, impl=impl)
-        f.name_return(c["ret"])
+        if c.get("ret"):
+            f.name_return(c["ret"])
         f.spec(c["spec"])
+        for anchor, ghost, n in c.get("ghost", []):
+            f.replace(anchor, ghost + anchor, count=n, rule="S-ghost: proof block before `%s`" % anchor.strip())
         if c.get("start"):
             f.at_start(c["start"])
         if c.get("boxref"):
@@ -552,7 +621,11 @@ def build(ctx, res):
     for fn, c in VALUE_HELPERS:
         f = v.item("fn", fn, impl="Value")
         f.drop_attr(r"inline")
-        f.name_return(c["ret"])
+        if c.get("ret"):
+            f.name_return(c["ret"])
+        if c.get("kill"):
+            armx.replace_sub_arm(f, c["kill"][0], "{ vp_unreachable() }", count=c["kill"][1],
+                                 rule="EB: the <=64-bit arm (proved by Kani in unit value64) is replaced by a call with precondition `false`, which PROVES it unreachable under this contract")
         f.spec(c["spec"])
         if c.get("start"):
             f.at_start(c["start"])
@@ -562,11 +635,6 @@ def build(ctx, res):
             armx.desugar_ops(f, c.get("cfg", CFG))
         add(f, "Value::%s" % fn)
         expect.append("Value::%s" % fn)
-    f = v.item("fn", "trunc", impl="Value")
-    f.replace(f.body_text(), "{ unimplemented!() }", rule="O7': body of Value::trunc dropped (not under contract; precondition `false`)")
-    f.spec("    requires false,")
-    f.prepend("#[verifier::external_body]")
-    add(f, "Value::trunc")
     open_impl(None)
     fns = {"eval_value_binary": o.item("fn", "eval_value_binary", impl="Op"), "eval_value_unary": o.item("fn", "eval_value_unary", impl="Op")}
     for name in ("b0", "b1"):
